@@ -36,7 +36,7 @@ ENGINES = {
         "configs": {"default": []},
     },
     "sched": {
-        "dir": "engines/sched", "bin": "vsched",
+        "dir": "engines/sched", "bin": "vsched", "pre": "runner/instrument.py",
         "configs": {"default": []},
     },
     "b3sum": {
